@@ -119,7 +119,13 @@ class HttpRelayClient(RelayPoolClient):
                                     value.encode('iso-8859-1'))
             self.conn.endheaders(msg_headers)
             self.conn.send(msg_body)
-            self._process_response(self.conn.getresponse(), result)
+            http_res = self.conn.getresponse()
+            self._process_response(http_res, result)
+            # The body must be consumed before the connection can carry the
+            # next request.
+            read_body = getattr(http_res, 'read', None)
+            if read_body is not None:
+                read_body()
 
     def _parse_smtp_reply_header(self, http_res):
         raw_reply = http_res.getheader('X-Smtp-Reply', '')
